@@ -443,16 +443,28 @@ func c15R4(a *A) {
 			continue
 		}
 		a.touch(f)
-		// a comparison Count(bitmap of this image) != len(Columns()) whose unequal edge returns an error, dominating the loop
-		var loopHdr *ssa.BasicBlock
-		for _, b := range f.Blocks {
-			if isLoopHeader(b) {
-				loopHdr = b
+		// a comparison Count(bitmap of this image) != len(Columns()) whose unequal edge returns an error, dominating the column
+		// loop - or, when the loop lives in a helper, dominating the call that runs it
+		var guardAt []*ssa.BasicBlock
+		isDec := func(g *ssa.Function) bool { return g.Name() == "CellBytes" && g.Pkg == w.Repl }
+		for _, rl := range findRowLoopsDeep(w, f, isDec) {
+			if rl.Site != nil {
+				guardAt = append(guardAt, rl.Site.Block())
+			} else {
+				guardAt = append(guardAt, rl.Header)
 			}
 		}
-		ok := false
-		if loopHdr != nil {
-			for _, ce := range dominatingConds(loopHdr) {
+		if len(guardAt) == 0 {
+			for _, b := range f.Blocks {
+				if isLoopHeader(b) {
+					guardAt = append(guardAt, b)
+				}
+			}
+		}
+		ok := len(guardAt) > 0
+		for _, at := range guardAt {
+			guarded := false
+			for _, ce := range dominatingConds(at) {
 				bo, isB := ce.Cond.(*ssa.BinOp)
 				if !isB || (bo.Op != token.NEQ && bo.Op != token.EQL) {
 					continue
@@ -471,8 +483,11 @@ func c15R4(a *A) {
 					}
 				}
 				if hasCount && hasLen && (bo.Op == token.EQL) == ce.Val {
-					ok = true
+					guarded = true
 				}
+			}
+			if !guarded {
+				ok = false
 			}
 		}
 		a.check(ok, rule, "image-count@"+fn, w.pos(f.Pos()), "column loop dominated by '"+bm+".Count() == len(Columns())'",
